@@ -194,6 +194,13 @@ def _detect_causes(
     new = settings.persistence.progress_storage.clear(essence=new) if new is not None else None
     diff = diffs.diff(old, new)
 
+    # A change can restore the last-handled essence (A -> B -> A while B is not yet handled):
+    # the diff against the last-handled state is empty then, but the object has changed
+    # since it was last seen --- which matters for the idling of timers.
+    seen = memory.daemons_memory.last_seen_essence
+    seen = new if seen is None else seen
+    memory.daemons_memory.last_seen_essence = new
+
     watching_cause = causes.detect_watching_cause(
         raw_event=raw_event,
         resource=resource,
@@ -211,7 +218,8 @@ def _detect_causes(
         patch=patch,
         body=body,
         memo=memory.memo,
-        reset=bool(diff),  # only essential changes reset idling, not every event
+        # Only essential changes reset idling, not every event.
+        reset=bool(diff) or bool(diffs.diff(seen, new)),
     ) if registry._spawning.has_handlers(resource=resource) else None
 
     changing_cause = causes.detect_changing_cause(
